@@ -847,7 +847,7 @@ class C15(fw.Check):
     def generate_current(n, rng):
         """conv cases whose root already declares the current format version (FormatConverter runs
         the converter over 1.1 files as well): the text of a single value element is then the encoded
-        value list of a 1.1 Property and is kept as it is (`encoded_values`, fix 9cd3c9f)"""
+        value list of a 1.1 Property and is kept as it is (`encoded_values`, fix 118e0c3)"""
         cases = []
         for i in range(n):
             g = Gen(rng, "wild" if i % 2 else "wf")
@@ -1297,8 +1297,8 @@ class C15(fw.Check):
         if case["fmt"] == "XML":
             # comments / PIs (also inside value elements), the XML declaration of a StringIO text
             # and the locale of the process are no content: the model is asked about the parsed
-            # source tree without them (the three former known findings are fixed: af40409,
-            # 603bf9e, 7b9559d)
+            # source tree without them (the three former known findings are fixed: 0b2a6bf,
+            # efa346d, 7b9559d)
             return [{"op": "convert", "fresh": FRESH, "tree": obs["src_parsed"]}]
         return [{"op": "dict", "fresh": FRESH, "doc": case["doc"]}]
 
@@ -1387,7 +1387,7 @@ class C15(fw.Check):
         if a["wf"] and a["read"] != a["spec"]:
             # the composition of the per-stage theorems, evaluated by the driver: on a well-formed
             # 1.0 document (WF10) the strict reader's view of the converted tree is the specified
-            # 1.0 content (content10) - since the fixes 9cd3c9f / a03a000 without further hypotheses
+            # 1.0 content (content10) - since the fixes 118e0c3 / 6a95aab without further hypotheses
             out.append("model: readDoc (convertTree x) differs from the specification content10 x "
                        "on a WF10 document: %s vs %s" % (json.dumps(a["read"])[:600], json.dumps(a["spec"])[:600]))
         return out
